@@ -553,6 +553,8 @@ def tier4():
     out.append(S(("n", BYTE), ("d", ["Aligned", 4, ["Bytes", TH("n")], b"\x00"]), ("t", BYTE)))
     out.append(S(("items", ["PrefixedArray", BYTE, S(("a", BYTE), ("b", ["Bytes", TH("a")]))])))
     out.append(S(("a", ["Default", BYTE, 7]), ("b", ["Default", ["CString", "ascii"], "x"])))
+    out.append(S(("w", ["Flag"]), ("v", ["BytesInteger", 2, False, TH("w")]), ("t", BYTE)))
+    out.append(S(("w", BYTE), ("v", ["BytesInteger", ["bin", "+", TH("w"), ["k", 1]], True, ["bin", "&", TH("w"), ["k", 1]]])))
     out.append(S(("hdr", S(("len", I(2, False, "b")), ("kind", BYTE))), ("body", ["FixedSized", ["path", ["hdr", "len"]], ["GreedyRange", BYTE]])))
     return out
 
